@@ -113,3 +113,29 @@ def fmt_vs(v):
 
 def fmt_facts(fs):
     return "{" + "; ".join("%s∈%s" % (show(k), fmt_vs(v)) for k, v in fs.items()) + "}"
+
+
+def mentions_through_defs(f, tb, t, pred, depth=0):
+    """`t` mentions a sub-term satisfying pred - directly, or through a multi-definition local every definition of which is `None`
+    (or a unit variant) or mentions it (`let x = match y { Some(v) if c => Some(v), _ => None }` written out from a combinator)"""
+    if mentions(t, pred):
+        return True
+    if depth > 3:
+        return False
+    roots = [x for x in subterms(t) if isinstance(x, tuple) and x and x[0] == "local"]
+    if not roots:
+        return False
+    for r in roots:
+        some = 0
+        ok = True
+        for d in tb.defs.get(r[1], ()):
+            dv = tb.rvalue(f.blocks[d[1]].stmts[d[2]]["rv"]) if d[0] == "stmt" else tb.call_term(f.blocks[d[1]].term["call"])
+            if dv[0] == "agg" and not dv[3]:
+                continue
+            if not mentions_through_defs(f, tb, dv, pred, depth + 1):
+                ok = False
+                break
+            some += 1
+        if ok and some >= 1:
+            return True
+    return False
